@@ -69,6 +69,9 @@ def mk_addr(typ, pay, rng):
     return hdr + pay
 
 
+STEEP = {'base': 9000, 'range': 100, 'multiplier': 1.2}     # reference-script fee schedule that makes small scripts expensive
+
+
 def tier_fee(size, base=44, rng_=25600, mult=1.2):
     total, b = 0.0, base
     while size > rng_:
@@ -78,9 +81,10 @@ def tier_fee(size, base=44, rng_=25600, mult=1.2):
 
 def approx_amount(pp, fee_buffer, ref_size):
     p = dict(PP_DEFAULT); p.update(pp)
+    sched = p.get('min_fee_reference_scripts') or {'base': 44, 'range': 25600, 'multiplier': 1.2}
     mf = (math.ceil(p['max_tx_size'] * p['min_fee_coefficient']) + math.ceil(p['min_fee_constant'])
           + math.ceil(p['max_tx_ex_steps'] * p['price_step']) + math.ceil(p['max_tx_ex_mem'] * p['price_mem'])
-          + tier_fee(ref_size))
+          + tier_fee(ref_size, sched['base'], sched['range'], sched['multiplier']))
     return -(-(mf + (fee_buffer or 0)) * p['collateral_percent'] // 100)
 
 
@@ -108,6 +112,8 @@ def rand_pp(rng):
         pp['min_fee_constant'] = rng.choice([0, 155381, 155382, 1000000, 155381 + 7])
     if rng.random() < 0.2:
         pp['max_tx_size'] = rng.choice([16384, 16385, 8192, 32768])
+    if rng.random() < 0.35:
+        pp['min_fee_reference_scripts'] = dict(STEEP)
     return pp
 
 
@@ -119,7 +125,7 @@ def rand_trigger(rng, slice_mode):
     if r < 0.45:
         t = {'kind': 'wit', 'script': {'kind': rng.choice(['v1', 'v2', 'v3']), 'bytes': SCRIPT_BYTES.hex()}}
     elif r < 0.62:
-        n = rng.choice([15, 15, 3000, 30000, 60000])
+        n = rng.choice([15, 15, 120, 400])
         t = {'kind': 'ref', 'script': {'kind': rng.choice(['v2', 'v3']), 'bytes': (SCRIPT_BYTES * (n // 15 + 1))[:n].hex()}}
     elif r < 0.78:
         t = {'kind': 'mint', 'script': {'kind': rng.choice(['v1', 'v2', 'v3']), 'bytes': SCRIPT_BYTES.hex()},
@@ -275,11 +281,13 @@ def corpus():
     base = dict(mode='build', pp={}, fee_buffer=None, threshold=None, change=w.hex(), coll_change=None, inputs=[], potential=[],
                 input_addresses=[w.hex()], collaterals=[], outputs=[{'addr': w.hex(), 'coin': 3000000, 'assets': []}],
                 merge_change=False, ex_units=[400000, 170000000])
-    # (i) more than max_collateral_inputs needed: 50 KB reference script, eight 2.1-ADA UTxOs
-    big = {'kind': 'v2', 'bytes': '01' * 50000}
+    # (i) more than max_collateral_inputs needed: expensive reference script (the original witness used a 50 KB script
+    # under the default schedule; a 400-byte script under a steep schedule gives the same max_tx_fee effect), 2.1-ADA UTxOs
+    big = {'kind': 'v2', 'bytes': '01' * 400}
     baddr = mk_addr(7, script_hash(big), R())
     us = [U(i, w, 2100000) for i in range(1, 9)] + [U(20, other, 250000000, script=big, pa=True), U(21, baddr, 5000000, dh='inline', pa=True)]
-    out.append(dict(base, utxos=us, trigger={'kind': 'ref', 'script': big, 'utxo': 9, 'ref': 8}, name='max-inputs-refscript'))
+    out.append(dict(base, utxos=us, pp={'min_fee_reference_scripts': {'base': 4000, 'range': 100, 'multiplier': 1.2}},
+                    trigger={'kind': 'ref', 'script': big, 'utxo': 9, 'ref': 8}, name='max-inputs-refscript'))
     us = [U(i, w, 2100000) for i in range(1, 7)] + [U(9, saddr, 5000000, dh='hash')]
     out.append(dict(base, utxos=us, pp={'max_collateral_inputs': 1}, trigger={'kind': 'wit', 'script': v2, 'utxo': 6},
                     name='max-inputs-1'))
@@ -336,7 +344,7 @@ def r_call(sc, k, utab):
     exc = 0 if k['exc'] is None else (EXC.get(k['exc'][1], 9) if k['exc'][0] == 'ValueError' else 9)
     P = (f'(mkCP {C.cz(k["max_fee"])} {C.cz(k["fee_buffer"] or 0)} {C.cz(k["percent"])} {C.cz(k["max_inputs"])} '
          f'{C.cz(k["threshold"])})')
-    colls = C.clist([C.cpair(f'hx "{utab[i]["txid"]}"', C.cn(utab[i]['ix'])) for i in k['collaterals']])
+    colls = C.clist([f'idof u{i}' for i in k['collaterals']])
     return (f'(mkCall {C.cbool(plutus_flag(sc))} {C.copt(None if k["addr"] is None else "(hx " + chr(34) + k["addr"] + chr(34) + ")")} '
             f'{P} {C.cz(k["cpb"])} {us(k["explicit"])} {us(k["inputs"])} {us(k["potential"])} {us(k["at_addr"])} '
             f'{r_iret(k["pre_return"])} {C.copt(None if k["pre_total"] is None else C.cz(k["pre_total"]))} '
@@ -354,7 +362,9 @@ def r_scen(i, sc, res):
     calls = C.clist([r_call(sc, k, utab) for k in res['calls']])
     if res.get('body'):
         pc, mx, cpb = lparams_of(sc)
-        um = C.clist([C.cpair(C.cpair(f'hx "{t}"', C.cn(ix)), hxl(o)) for t, ix, o in res['umap']])
+        known = {(u['txid'], u['ix'], u['cbor']): j for j, u in enumerate(utab)}
+        um = C.clist([f'(idof u{known[(t, ix, o)]}, snd u{known[(t, ix, o)]})' if (t, ix, o) in known
+                      else C.cpair(C.cpair(f'hx "{t}"', C.cn(ix)), hxl(o)) for t, ix, o in res['umap']])
         b = (f'(Some (mkBuild (mkLP {C.cz(pc)} {C.cz(mx)} {C.cz(cpb)}) {um} {hxl(res["body"])} '
              f'{C.cbool(runs_plutus(sc))} {C.cbool(sc.get("change") is not None)}))')
     else:
@@ -428,14 +438,15 @@ def make_cases(ctx, n_slice, n_build):
 
 
 def correspond(ctx, n=None):
-    n_slice, n_build = n or (ctx.n(700, 14000), ctx.n(260, 5000))
+    n_slice, n_build = n or (ctx.n(420, 14000), ctx.n(160, 5000))
     cases = make_cases(ctx, n_slice, n_build)
     results = C.run_impl('collateral_driver', {'cases': cases}, nshards=C.NPROC)
     mism, cfail, bfail, errs = evaluate(cases, results)
     if errs:
         raise RuntimeError('cases file failed to compile: ' + errs[0])
     hist = {'mode': {}, 'trigger': {}, 'outcome': {}, 'n_collateral': {}, 'explicit': 0, 'body_with_return': 0,
-            'build_exc': {}, 'calls': 0, 'auto_phase_reach': {'inputs': 0, 'potential': 0, 'address': 0}}
+            'build_exc': {}, 'calls': 0, 'auto_phase_reach': {'inputs': 0, 'potential': 0, 'address': 0},
+            'candidate_address_types': {}, 'chosen_address_types': {}, 'chosen_with_tokens': 0}
     def bump(d, k):
         d[k] = d.get(k, 0) + 1
     for c, r in zip(cases, results):
@@ -448,6 +459,11 @@ def correspond(ctx, n=None):
             bump(hist['outcome'], 'noop-early' if not (plutus_flag(c) and k['has_addr']) else
                  ('err-' + k['exc'][1] if k['exc'] else ('set' if k['ret'] else 'no-return')))
             bump(hist['n_collateral'], str(len(k['collaterals'])))
+            for j in set(k['inputs'] + k['potential'] + k['at_addr'] + k['explicit']):
+                bump(hist['candidate_address_types'], r['utab'][j]['tname'])
+            for j in k['collaterals']:
+                bump(hist['chosen_address_types'], r['utab'][j]['tname'])
+                hist['chosen_with_tokens'] += bool(r['utab'][j]['assets'])
             if not k['explicit'] and k['collaterals']:
                 ins, pot = set(k['inputs']), set(k['potential'])
                 last = k['collaterals'][-1]
